@@ -46,7 +46,11 @@ func (w *Wide) PtrM(i int) int {
 
 var wideInst = Wide{A: [12]int{1, 2, 3, 4, 5, 6, 7, 8, 9, 10, 11, 12}}
 
-// ExtraTargets are targets given as method values (the function that is patched is the compiler's -fm wrapper).
+// LitTarget is a function literal (symbol c14corpus.init.func1 or glob..func1) whose body calls another function.
+var LitTarget = func(i int) int { return psHelper(i) + 2 }
+
+// ExtraTargets are targets given as method values (the function that is patched is the compiler's -fm wrapper)
+// and as a function literal.
 func ExtraTargets() []Target {
-	return []Target{{Name: "Wide.M-fm", Fn: wideInst.M, Sig: 1}, {Name: "(*Wide).PtrM-fm", Fn: (&wideInst).PtrM, Sig: 1}}
+	return []Target{{Name: "Wide.M-fm", Fn: wideInst.M, Sig: 1}, {Name: "(*Wide).PtrM-fm", Fn: (&wideInst).PtrM, Sig: 1}, {Name: "literal", Fn: LitTarget, Sig: 1}}
 }
